@@ -176,11 +176,12 @@ class Slice(Shape):
 class ListOf(Shape):
     """A list (mutable reference) of unknown length whose elements have shape `elem`."""
 
-    def __init__(self, elem, min_len=0, max_len=None, tuple_=False):
+    def __init__(self, elem, min_len=0, max_len=None, tuple_=False, measure=None):
         self.elem = elem
         self.min_len = min_len
         self.max_len = max_len
         self.tuple_ = tuple_
+        self.measure = measure  # element -> int: psum() of the list sums this (see seqs.fresh_seq)
 
     def fresh_seq(self, st, hint):
         from .seqs import fresh_seq
@@ -189,7 +190,7 @@ class ListOf(Shape):
         st.assume(n.e >= self.min_len)
         if self.max_len is not None:
             st.assume(n.e <= self.max_len)
-        return fresh_seq(st, n, self.elem, hint)
+        return fresh_seq(st, n, self.elem, hint, measure=self.measure)
 
     def fresh(self, st, hint):
         from .seqs import LRef
@@ -240,7 +241,7 @@ def shape_of(v):
     if isinstance(v, LRef):
         s = v.seq
         if isinstance(s, SSeq):
-            return ListOf(s.shape)
+            return ListOf(s.shape, measure=getattr(s, "measure", None))
         if s:
             return ListOf(shape_of(s[0]))
         raise Unsupported("cannot infer the element shape of an empty concrete list")
